@@ -102,6 +102,12 @@ def run(ctx):
         split_tables(ctx, prog)
         terminator_tables(ctx, prog)
         misc(ctx, prog)
+        # the step tables take string::find / rfind as "the first / last occurrence, if any": that is C04's restart lint and scan
+        # table on the two matcher loops every split step searches with - decided here as well
+        from . import c04
+        c04.matchers(ctx, prog)
+    ctx.floor("SCAN", 2)
+    ctx.floor("E13", 6)
     ctx.floor("TAB-SPLIT", 4)
     ctx.floor("ISO", 2)
     ctx.floor("DLG", 6)
